@@ -12,6 +12,7 @@ correspondence: `to_proto(from_proto(P)) == P` as protobuf equality for every pa
 generator, the examples and the primitive / external-module parameter space produce.
 -/
 import Hdl21Model.Import
+import Hdl21Model.Lemmas.RoundTrip
 import Hdl21Model.Lemmas.Export
 import Hdl21Model.Props.C13
 namespace Hdl21.Props.C11
@@ -95,7 +96,116 @@ theorem tables_roundtrip :
     (∀ p ∈ exportPulseMap, Params.lookupS p.2 importPulseMap = some p.1) :=
   ⟨Props.C13.prefix_roundtrip, Props.C13.prim_maps_inverse, Props.C13.pulse_maps_inverse⟩
 
+/-! ## whole modules -/
+open Hdl21.RoundTrip
+
+/-- **Round trip of a module**: a module of the shape `export_module` writes — signal names distinct, internal signals
+    first and then the ports in the order of the port list, directions of the enumeration, instances of defined things
+    connected on existing ports to well-formed targets — is imported without error, and exporting what was imported gives
+    the identical module: same signals in the same order, same ports with the same directions in the same order, same
+    instances with the same references, parameters and connection targets.  (`ctx`: the port names of what a reference
+    resolves to — an earlier module of the package, a declared external module, a primitive.) -/
+theorem module_roundtrip (ctx : PRef → Option (List String)) (p : PModule) (h : Shape ctx p = true) :
+    ∃ m, importModule ctx p = .ok m ∧ exportModule m = .ok p := by
+  unfold Shape at h
+  simp only [Bool.and_eq_true, decide_eq_true_eq, List.all_eq_true] at h
+  obtain ⟨⟨⟨⟨⟨hsn, hpn⟩, hdirs⟩, hsplit⟩, hports⟩, hinst⟩ := h
+  have hd : ∀ q ∈ p.ports, q.2 ∈ protoDirs := hdirs
+  -- signals
+  have hdecl : (p.ports.all fun q => (lookup q.1 p.signals).isSome) = true := by
+    rw [List.all_eq_true]
+    intro q hq
+    have hqm : q.1 ∈ (p.signals.filter (fun sw => isPort p sw.1)).map (·.1) := by
+      rw [hports]; exact List.mem_map.mpr ⟨q, hq, rfl⟩
+    obtain ⟨sw, hsw, hname⟩ := List.mem_map.mp hqm
+    have hin : sw ∈ p.signals := (List.mem_filter.mp hsw).1
+    rw [← hname]
+    exact lookup_isSome_of_mem p.signals sw hin
+  have hsigs : importSigs p = .ok (p.signals.map (imp p.ports)) := by
+    unfold importSigs
+    rw [if_pos hdecl, importSigList_eq p.ports hd]
+  obtain ⟨hi, hi1, hi2⟩ := insts_roundtrip ctx p.signals (target_roundtrip p.signals) p.instances
+    (by rw [List.all_eq_true]; exact hinst)
+  obtain ⟨fS, fN⟩ := filter_imp p hd p.signals
+  refine ⟨_, by unfold importModule; rw [hsigs, hi1], ?_⟩
+  unfold exportModule
+  simp only [fS, fN]
+  rw [exportPorts_imp p.ports hpn hd _ p.ports hports (fun x hx => hx), hi2]
+  simp only [← List.map_append, map_back]
+  rw [← hsplit]
+where
+  lookup_isSome_of_mem : ∀ (l : List (String × Nat)) (sw : String × Nat), sw ∈ l → (lookup sw.1 l).isSome = true
+    | [], _, h => by cases h
+    | (a, b) :: rest, sw, h => by
+      unfold lookup
+      by_cases ha : a = sw.1
+      · simp [ha]
+      · rw [if_neg ha]
+        rcases List.mem_cons.mp h with h | h
+        · exact absurd (by rw [h]) ha
+        · exact lookup_isSome_of_mem rest sw h
+
+/-- What the importer makes of such a module, spelled out: the internal signals and the ports in two lists, each in the
+    order of the package's signal list, every port with the direction of its port entry. -/
+theorem import_shape (ctx : PRef → Option (List String)) (p : PModule) (h : Shape ctx p = true) (m : HModule)
+    (hm : importModule ctx p = .ok m) :
+    m.name = p.name ∧
+    m.signals.map (fun s => (s.name, s.width)) = p.signals.filter (fun sw => !isPort p sw.1) ∧
+    m.ports.map (fun s => (s.name, s.width)) = p.signals.filter (fun sw => isPort p sw.1) ∧
+    (∀ s ∈ m.signals, s.dir = none) ∧ m.instances.length = p.instances.length := by
+  unfold Shape at h
+  simp only [Bool.and_eq_true, decide_eq_true_eq, List.all_eq_true] at h
+  obtain ⟨⟨⟨⟨⟨_, _⟩, hdirs⟩, _⟩, hports⟩, hinst⟩ := h
+  have hd : ∀ q ∈ p.ports, q.2 ∈ protoDirs := hdirs
+  obtain ⟨hi, hi1, hi2⟩ := insts_roundtrip ctx p.signals (target_roundtrip p.signals) p.instances
+    (by rw [List.all_eq_true]; exact hinst)
+  obtain ⟨fS, fN⟩ := filter_imp p hd p.signals
+  unfold importModule at hm
+  cases hs : importSigs p with
+  | error e => simp [hs] at hm
+  | ok sigs =>
+    have hsigs : sigs = p.signals.map (imp p.ports) := by
+      unfold importSigs at hs
+      split at hs
+      · rw [importSigList_eq p.ports hd] at hs; injection hs with hs; exact hs.symm
+      · cases hs
+    simp only [hs, hi1] at hm
+    injection hm with hm
+    subst hm
+    subst hsigs
+    refine ⟨rfl, ?_, ?_, ?_, ?_⟩
+    · simp only [fN, map_back]
+    · simp only [fS, map_back]
+    · intro s hs
+      have := (List.mem_filter.mp hs).2
+      cases hdir : s.dir with
+      | none => rfl
+      | some d => simp [hdir] at this
+    · exact exportInsts_length hi p.instances hi2
+where
+  exportInsts_length : ∀ (hs : List HInst) (is : List PInst), exportInsts hs = .ok is → hs.length = is.length
+    | [], is, h => by simp [exportInsts] at h; subst h; rfl
+    | i :: rest, is, h => by
+      unfold exportInsts at h
+      cases hc : exportConns i.conns with
+      | error e => simp [hc] at h
+      | ok cs =>
+        cases hr : exportInsts rest with
+        | error e => simp [hc, hr] at h
+        | ok r =>
+          simp only [hc, hr] at h
+          injection h with h
+          subst h
+          simp [exportInsts_length rest r hr]
+
 /-! ### Non-vacuity -/
+def exCtx : PRef → Option (List String) := fun r => if r = .ext "vlsir.primitives" "resistor" then some ["p", "n"] else none
+def exMod : PModule := ⟨"Top", [("s", 2), ("a", 1), ("b", 3)], [("a", "INPUT"), ("b", "NONE")],
+  [⟨"r1", .ext "vlsir.primitives" "resistor", [("r", "5")], [("p", .slice "s" 1 1), ("n", .concat [.slice "b" 0 0])]⟩]⟩
+example : Shape exCtx exMod = true ∧
+    (importModule exCtx exMod).toOption.map (fun m => (m.signals.map (·.name), m.ports.map (fun s => (s.name, s.dir))))
+      = some (["s"], [("a", some "INPUT"), ("b", some "NONE")]) := by decide
+
 example : exportTarget (importTarget [("a", 4), ("b", 2)] (.concat [.slice "a" 2 1, .sig "b"]))
         = .ok (.concat [.slice "a" 2 1, .sig "b"]) := by rfl
 
